@@ -59,12 +59,18 @@ type c13Case struct {
 	seqs     [][]byte
 	counts   []int            // op g
 	smaps    []map[string]int // op a, c
-	onlyHead bool             // op c
+	onlyHead bool             // op c, x
+	minEval  int              // op x: --min-eval-rate
+	attr     string           // op x: --sample
+	inputs   []obiclean.VerifInput
 }
 
 func c13Parse(c string) (cs c13Case, ok bool) {
 	f := strings.Fields(c)
-	if len(f) < 5 || (f[0] != "g" && f[0] != "a" && f[0] != "c") {
+	if len(f) >= 1 && f[0] == "x" {
+		return c13ParseX(f)
+	}
+	if len(f) < 5 || (f[0] != "g" && f[0] != "a" && f[0] != "c" && f[0] != "f") {
 		return cs, false
 	}
 	cs.op = f[0]
@@ -88,7 +94,7 @@ func c13Parse(c string) (cs c13Case, ok bool) {
 		return cs, false
 	}
 	for _, w := range f[5:] {
-		if cs.op == "g" {
+		if cs.op == "g" || cs.op == "f" {
 			k := strings.IndexByte(w, ':')
 			if k < 0 {
 				return cs, false
@@ -195,8 +201,11 @@ func (cs c13Case) run(workers int) string {
 		for i, s := range cs.seqs {
 			seqs[i] = append([]byte{}, s...)
 		}
-		if cs.op == "g" {
+		if cs.op == "g" || cs.op == "f" {
 			return c13Nodes(obiclean.VerifBuildGraph(seqs, append([]int{}, cs.counts...), workers, cs.maxErr, cs.ratio()))
+		}
+		if cs.op == "x" {
+			return cs.runX(workers)
 		}
 		if cs.op == "c" {
 			// the batches of the iterator CLIOBIClean returns, in ARRIVAL order; the consumer below re-sequences them by
@@ -359,7 +368,7 @@ func c13Reference(seqs [][]byte, counts []int, p, q, maxErr int) c13Ref {
 		}
 		for _, f := range r.fathers[i] {
 			// round half away from zero of weight*count/swf, in integers
-			r.weight[f] += (2*r.weight[i]*cnt(f) + swf) / (2 * swf)
+			r.weight[f] += c13RoundDiv(r.weight[i], cnt(f), swf)
 		}
 	}
 	if maxErr > 1 {
@@ -384,10 +393,11 @@ func c13Reference(seqs [][]byte, counts []int, p, q, maxErr int) c13Ref {
 			var keep, kd []int
 			for k, f := range r.fathers[i] {
 				d := r.dists[i][k]
-				if r.weight[i]*c13Pow(q, d) == c13Pow(p, d)*r.weight[f] {
+				cmp := c13RatioCmp(r.weight[i], r.weight[f], p, q, d)
+				if cmp == 0 {
 					stat(fmt.Sprintf("ratio:exactly-on-the-boundary(d=%d)", d))
 				}
-				if r.weight[i]*c13Pow(q, d) <= c13Pow(p, d)*r.weight[f] {
+				if cmp <= 0 {
 					keep = append(keep, f)
 					kd = append(kd, d)
 				}
@@ -783,6 +793,9 @@ func (c13) Exec(c string) (string, []Fail) {
 	stat(fmt.Sprintf("nseq:%d", (len(cs.seqs)+9)/10*10))
 	var fails []Fail
 	res := cs.run(cs.workers)
+	c13Unsafe = false
+	isG := cs.op == "g" || cs.op == "f"
+	fx := "0"
 
 	// (1) exactness: distance one, and distance > 1 on plain acgt sequences
 	exact := cs.maxErr <= 1 || c13ACGT(cs.seqs)
@@ -791,10 +804,28 @@ func (c13) Exec(c string) (string, []Fail) {
 	} else {
 		stat("oracle:determinism-only(iupac,d>1)")
 	}
-	if cs.op != "g" && exact && res != "panic" && res != "fatal" && res != "hang" {
-		fails = append(fails, c13AnnotOracle(cs, res)...)
+	if !isG && exact && res != "panic" && res != "fatal" && res != "hang" {
+		if cs.op == "x" {
+			parts := strings.Split(res, " | ")
+			if len(parts) != 4 {
+				fails = append(fails, Fail{"x.format", "unexpected result " + res})
+			} else {
+				as := cs
+				as.op = "c"
+				fails = append(fails, c13AnnotOracle(as, parts[0])...)
+				fails = append(fails, c13CsvOracle(cs, parts[1])...)
+				if parts[1] != "-" {
+					stat("csv:rows")
+				} else {
+					stat("csv:empty")
+				}
+			}
+		} else {
+			fails = append(fails, c13AnnotOracle(cs, res)...)
+		}
+		fails = c13DomainFilter(fails)
 	}
-	if cs.op == "g" && exact && res != "panic" && res != "fatal" && res != "hang" {
+	if isG && exact && res != "panic" && res != "fatal" && res != "hang" {
 		seqs := make([][]byte, len(cs.seqs))
 		for i, s := range cs.seqs {
 			seqs[i] = append([]byte{}, s...)
@@ -805,7 +836,20 @@ func (c13) Exec(c string) (string, []Fail) {
 			return "ok"
 		})
 		if r == "ok" {
-			fails = append(fails, c13Oracle(cs, ns)...)
+			fails = append(fails, c13DomainFilter(c13Oracle(cs, ns))...)
+			if cs.op == "f" {
+				if c13Differs(cs, ns) {
+					fx = "1"
+					stat("float:fx=1(real code differs from the exact-rational reference)")
+				} else {
+					stat("float:fx=0")
+				}
+				if c13Unsafe {
+					stat("float:f-case-outside-domain")
+				} else {
+					stat("float:f-case-inside-domain")
+				}
+			}
 			nedges, maxsons := 0, 0
 			for _, n := range ns {
 				nedges += len(n.Edges)
@@ -854,6 +898,9 @@ loop:
 				break loop
 			}
 		}
+	}
+	if cs.op == "f" && res != "panic" && res != "fatal" && res != "hang" {
+		res += " fx=" + fx
 	}
 	return res, fails
 }
@@ -1267,6 +1314,12 @@ func (c13) Gen(rng *rand.Rand, tier string, emit func(string)) {
 		"a 4 1 1 2 61636774/a=5 61636761/a=1,c=1 63/c=7",
 		"a 2 2 1 1 6163677461/a=9,b=1 6163676161/a=3,b=1 6163636361/a=1,b=1",
 		"g 4 1 1 3 2:61636774 1:61636761",                                            // ratio boundary: 1/(2+1) = 1/3 exactly: kept (<=)
+		// round 3, float frontier: 7/10 at distance 2 on the exact boundary 49/100: math.Pow(0.7, 2) = 0.48999999999999994 < 49/100
+		"f 2 2 7 10 100:6163677461636774 49:6163677461636161",
+		"f 2 2 1 10 100:6163677461636774 1:6163677461636161", // 1/10 at distance 2, boundary 1/100: kept by both
+		"f 2 1 1 1 1073741824:61636774 1073741823:61636761 1073741822:61636763", // w*c = 2^60: float64(w)*float64(c) is rounded
+		"x 3 1 1 1 0 0 sample 61636774/a=9,b=1 61636761/a=3,b=5 61636361/a=1 61636363/b~2 7474/~4",
+		"x 2 1 1 2 1 2 pcr 61636774/a=9,b=1 61636761/a=3,b=5 61636361/a=1 61636363/b~2 7474/~4 7474/a=1,c=8 7475/c=1",
 		"g 4 1 1 3 3:61636774 1:61636761",                                            // 1/4 < 1/3: kept
 		"g 4 1 2 7 3:61636774 1:61636761",                                            // 1/4 <= 2/7: kept
 		"g 4 1 1 4 2:61636774 1:61636761",                                            // 1/3 > 1/4: removed, the hub becomes a singleton
@@ -1357,6 +1410,9 @@ func (c13) Gen(rng *rand.Rand, tier string, emit func(string)) {
 		}
 		emit(c13Line("g", workers(), d, r, items))
 	}
+	// round 3: the float frontier (op f) and every option of the command with its side outputs (op x)
+	c13GenFrontier(rng, tier, emit)
+	c13GenX(rng, tier, emit)
 	// deepening round: ratio boundaries, ends, ties, --distance 2 / 3, data sets of several samples, the real CLI
 	nb, ne, nt, nm := 60, 40, 40, 80
 	if tier == "thorough" {
